@@ -1,4 +1,5 @@
 //! simcheck - deterministic simulation of squitterator with fault injection.
+mod carried;
 mod driver;
 mod exec;
 mod gen;
